@@ -204,14 +204,21 @@ def oracle_capacity(cfg, ops, trace):
         tot = sum(weigh(cfg, k, e["v"]) for k, e in s.map.items())
         if cfg["kind"] == "unsync":
             prev_tot = sum(weigh(cfg, k, e["v"]) for k, e in prev.map.items()) if prev else 0
-            growth = 0
-            if toks[0] == "I" and prev and int(toks[1]) in prev.map:
-                k = int(toks[1])
-                growth = max(0, weigh(cfg, k, int(toks[2])) - weigh(cfg, k, prev.map[k]["v"]))
-            allowed = max(0, prev_tot - cap) + growth
-            if tot - cap > allowed:
-                return (f"op {i} `{' '.join(toks)}`: resident weight {tot} > max_capacity {cap} "
-                        f"(excess {tot - cap}, allowed by weight-growing updates {allowed})")
+            o = toks[0]
+            batch_limited = prev is not None and len(prev.map) - len(s.map) >= 99
+            if o in ("T", "D", "A", "P", "Q"):
+                # no maintenance: an excess may stay, it must not grow
+                if tot > max(cap, prev_tot):
+                    return f"op {i} `{' '.join(toks)}`: resident weight grew from {prev_tot} to {tot} > max_capacity {cap}"
+            else:
+                growth = 0
+                if o == "I" and prev and int(toks[1]) in prev.map:
+                    k = int(toks[1])
+                    growth = max(0, weigh(cfg, k, int(toks[2])) - weigh(cfg, k, prev.map[k]["v"]))
+                # every other operation first removes a pending excess (up to a batch of entries)
+                if tot > cap + growth and not batch_limited:
+                    return (f"op {i} `{' '.join(toks)}`: resident weight {tot} > max_capacity {cap} after an operation that "
+                            f"runs maintenance (excess allowed by this operation's own weight-growing update: {growth})")
             if toks[0] == "I" and (not prev or int(toks[1]) not in prev.map):
                 k = int(toks[1])
                 if weigh(cfg, k, int(toks[2])) > cap and k in s.map:
@@ -304,10 +311,14 @@ def oracle_no_loss(cfg, ops, trace):
             elif o == "G" and out != "-":
                 pending_gets[int(toks[1])] = now
             elif o == "S":
+                # an explicit sync applies every recorded hit (the read channel never fills up in
+                # these sequential histories), so the idle timers are extended from here on
                 for k, t in pending_gets.items():
                     if k in weak_acc:
-                        weak_acc[k] = max(weak_acc[k], t) if False else weak_acc[k]
+                        weak_acc[k] = max(weak_acc[k], t)
                 pending_gets.clear()
+            elif o in ("X",):
+                pending_gets.pop(int(toks[1]), None)
         prev = s
     return None
 
